@@ -319,8 +319,16 @@ func checkC12(w *World, r *Report) {
 		if outerNext == nil || innerHdr == nil || innerHdr == outerNext.Block() {
 			r.Viol("rank.every-job-decided", sname+": retention loop", w.Pos(save.Pos()), "the save function does not iterate the per-pipeline job lists with an inner ranking loop around the decision")
 		} else {
+			// (skipping a pipeline whose list is empty skips nothing: the edge of a `len(list) == 0` test is not a way around the loop)
+			emptyEdge := map[*ssa.BasicBlock]int{}
+			for _, f := range w.ifFacts(save) {
+				if f.Atom.Op == "==" && f.Atom.R == "0" && strings.HasPrefix(f.Atom.L, "len(rangeval(recv.jobsByPipeline)") {
+					emptyEdge[f.If.Block()] = f.SuccTrue
+				}
+			}
 			res := PathQuery{Fn: save, Start: []ssa.Instruction{outerNext}, Target: func(x ssa.Instruction) bool { return x == outerNext },
-				BlockInstr: func(x ssa.Instruction) bool { return x.Block() == innerHdr }}.Find()
+				BlockInstr: func(x ssa.Instruction) bool { return x.Block() == innerHdr },
+				BlockEdge: func(b *ssa.BasicBlock, s int) bool { e, ok := emptyEdge[b]; return ok && e == s }}.Find()
 			r.Check(!res.Found, "rank.every-job-decided", sname+": every pipeline's jobs reach the decision", w.InstrPos(outerNext), "from one pipeline to the next the ranking loop over its jobs is always entered", "the per-pipeline iteration can skip the ranking loop ("+res.String()+"): jobs of such pipelines (e.g. pipelines that are no longer defined, whose lookup yields the zero definition) are never put to the retention decision")
 		}
 	}
